@@ -147,7 +147,10 @@ def _reverse(ctx, params, slices=(1, 2, 3)):
         tau = lp.probe_tau
         bw = [e for e in lp.events if e[0] == "backward"]
         fw = [e for e in lp.events if e[0] == "forward"]
-        ok = len(bw) == 1 and to_rat(bw[0][1]).equals(tau) and dict(bw[0][2]) == {"record_detectors": False, "reset_fields": False}
+        ok = len(bw) == 1 and to_rat(bw[0][1]).equals(tau) and {k_: v_ for k_, v_ in bw[0][2] if k_ != "materials"} == {"record_detectors": False, "reset_fields": False}
+        mats_bw = dict(bw[0][2]).get("materials") if bw else None
+        mats_fw = dict(primal_flags).get("materials") if primal_flags else None
+        ctx.ob("R4.2", f"{label}:reconstruction-materials", mats_bw is not None and mats_bw == mats_fw, "the reverse reconstruction and the primal forward see the same permittivity, permeability and conductivities", mats_bw, mats_fw)
         ctx.ob("R4.2", f"{label}:reconstruction", ok, "each iteration reconstructs the previous state with backward(record_detectors=False, reset_fields=False) applied to the carried state at the carried step", [(e[0], to_rat(e[1]).fmt(), e[2]) for e in bw], "backward at tau")
         ok = len(lp.vjps) == 1
         if ok:
@@ -159,7 +162,7 @@ def _reverse(ctx, params, slices=(1, 2, 3)):
             continue
         kw = fn.kwargs
         flags = (("record_detectors", kw.get("record_detectors")), ("simulate_boundaries", kw.get("simulate_boundaries")))
-        ok = flags == primal_flags and kw.get("record_boundaries") is False
+        ok = primal_flags is not None and flags == tuple(f_ for f_ in primal_flags if f_[0] != "materials") and kw.get("record_boundaries") is False
         ctx.ob("R4.2", f"{label}:vjp-flags", ok, "the linearised step is the step the primal ran: record_detectors and simulate_boundaries equal the primal forward's, and nothing is re-recorded", dict(flags=flags, record_boundaries=kw.get("record_boundaries")), dict(flags=primal_flags, record_boundaries=False))
         okc = kw.get("config") is cfg and to_rat(kw.get("key")).equals(atom("key")) and to_rat(kw.get("electric_conductivity")).equals(to_rat(arr.attrs["electric_conductivity"])) and to_rat(kw.get("magnetic_conductivity")).equals(to_rat(arr.attrs["magnetic_conductivity"]))
         ctx.ob("R4.2", f"{label}:vjp-closure", okc, "config, key and both conductivities of the linearised step are the run's own", sorted(kw), "config, key, electric_conductivity, magnetic_conductivity")
